@@ -125,8 +125,16 @@ def h_plural(cx, p, kv):
     cx.eq('basis_functions_ders', H.basis_functions_ders(p, K, singles, list(us), 1), [H.basis_function_ders(p, K, s, u, 1) for s, u in zip(singles, us)])
 
 
-def h_generate(cx, p, n, clamped):
+def h_generate(cx, p, n, clamped, earlier=False):
     KV = geo.M('knotvector')
+    if earlier:
+        # an earlier result for the same arguments was edited in place by its owner (rescaled, reversed)
+        old = KV.generate(p, n, clamped=clamped)
+        for i in range(len(old)):
+            old[i] = 5 - 3 * old[i]
+        old.reverse()
+        old2 = geo.M('utilities').generate_knot_vector(p, n, clamped=clamped)
+        old2[len(old2) // 2] = 7
     kv = KV.generate(p, n, clamped=clamped)
     cx.check('length', len(kv) == n + p + 1, 'len %d' % len(kv))
     cx.check('check()', KV.check(p, kv, n) is True)
@@ -217,6 +225,8 @@ def instances(tier):
         for n in range(p + 1, p + (6 if quick else 9)):
             for clamped in (True, False):
                 out.append(inst('generate p%d n%d %s' % (p, n, 'clamped' if clamped else 'unclamped'), h_generate, p=p, n=n, clamped=clamped))
+                if n in (p + 1, p + 3):
+                    out.append(inst('generate p%d n%d %s after an edited earlier result' % (p, n, 'clamped' if clamped else 'unclamped'), h_generate, p=p, n=n, clamped=clamped, earlier=True))
     for m in ((2, 4, 6) if quick else (2, 3, 4, 6, 8, 10)):
         out.append(inst('normalize m%d' % m, h_normalize, m=m))
     for p, n in ([(1, 2), (2, 3)] if quick else [(1, 2), (2, 3), (1, 4), (3, 4)]):
